@@ -73,12 +73,14 @@ def in_domain(name, value, n=None):
     kind, lo, lo_open, hi, hi_open, _ = table[name]
     if kind == "bool":
         return True
+    if value != value:
+        return False          # NaN belongs to no documented domain
     if name == "nb_points":
-        return n + 1 <= value <= npt_max(n)
+        return n + 1 <= int(value) <= npt_max(n)
     if lo is None:
         return True
-    if value != value:
-        return False
+    if kind == "int":
+        value = int(value)    # sizes / limits are integers: 0.5 means 0
     if lo_open and not value > lo:
         return False
     if not lo_open and not value >= lo:
@@ -109,7 +111,7 @@ def lattice(name, n=None):
             ("negative", -3)]
     if kind == "int":
         return [("below", -1), ("at", 0), ("just_inside", 1), ("typical", 40),
-                ("large", 10**6)]
+                ("large", 10**6), ("fraction", 0.5), ("nan", math.nan)]
     if name == "target":
         return [("-inf", -INF), ("typical", 0.5), ("inf", INF)]
     if name == "feasibility_tol":
@@ -125,6 +127,7 @@ def lattice(name, n=None):
         out.append(("above", hi + 1.0))
     else:
         out.append(("huge", 1e12))
+    out.append(("nan", math.nan))
     return [(p, v) for p, v in out if v is not None]
 
 
